@@ -177,12 +177,23 @@ func cmdCheck(args []string) int {
 			genErrs = append(genErrs, "CONTRACT-STALE: no lemma named "+ln)
 		}
 	}
-	if len(genErrs) > 0 {
-		for _, e := range genErrs {
-			fmt.Println("ERROR:", e)
+	// A function whose verification conditions cannot be generated any more
+	// (a loop the contract does not know, an invariant naming a variable that
+	// is gone, a construct outside the verified subset, a contracted function
+	// that no longer exists) is an obligation that can no longer be discharged:
+	// it is reported like any other undischarged obligation, without a
+	// counterexample.
+	for i, e := range genErrs {
+		fmt.Println("ERROR:", e)
+		name := e
+		if k := strings.Index(e, ": "); k > 0 && k < 120 {
+			name = e[:k]
 		}
-		fmt.Printf("govc: %s: verification conditions could not be generated (this is a contract/engine problem, not a property verdict)\n", cfg.ID)
-		return 2
+		vc := eng.newVC(name)
+		o := &Obligation{Name: fmt.Sprintf("%s::contract-applies[%d]", name, i), Kind: "contract-applies", Goal: "false", VC: vc,
+			Note: "the contract no longer applies to the code: " + e, Status: "undischarged", Solver: "none", Pre: true, Output: e}
+		vcs = append(vcs, vc)
+		obls = append(obls, o)
 	}
 	genS := time.Since(start).Seconds() - loadS
 
